@@ -10,6 +10,7 @@ import random
 import sys
 
 import anyio
+from guard import guarded_run  # noqa: E402
 import sniffio
 from asphalt.core import (
     AsyncResourceError,
@@ -631,7 +632,7 @@ def main():
     res = []
     for case in payload["cases"]:
         try:
-            res.append(anyio.run(run_case, case, backend=case["backend"]))
+            res.append(guarded_run(run_case, case, backend=case["backend"]))
         except BaseException as e:  # noqa
             import traceback
             res.append({"backend": case["backend"], "seed": case.get("seed"), "steps": [],
